@@ -23,9 +23,24 @@
  *   'R' delayed two extra rounds (arrives out of order) and then delivered twice
  * datagrams beyond the string are delivered normally.
  *
+ * Oracles (violation key c16:<clause>:<version>:<cbc|gcm>:<handshake kind>:<schedule class or replay mode>):
+ *   app-record-delivered-twice / delivered-datagram-never-sent   tagged payloads (mx_payload, unique serials): delivered multiset is a
+ *                                          sub-multiset of the sent one and every serial is delivered at most once
+ *   hs-state-regressed / handshake-uncompleted   a duplicated or replayed datagram never moves hsState backwards along the clean path,
+ *                                          a completed handshake stays completed
+ *   receive-error-under-benign-network, resend-failed-<role>-hs<state>, alert-sent-<role>-<desc>, alert-received
+ *                                          a negative API return or a fatal alert under a network that only drops/duplicates/delays/reorders
+ *   no-progress                            handshake incomplete N_PROGRESS timeout rounds after the last fault decision (or livelock / stall)
+ *   app-datagram-lost-without-drop, data-exchange-broken   a fresh application datagram that the network delivered in order was discarded
+ *   sanitizer reports                      keyed by the driver from the child's stderr
+ *
+ * Replay phase: an established session (four establishment variants) with every record and multi-record datagram seen on the wire
+ * captured; each is replayed at each of K positions of a fresh bidirectional exchange (alone, after the peer's Finished, twice, in
+ * pairs), plus the sequence-gap family (g datagrams lost in a row, g = 1..40 around the 32-entry window, then replays around the jump).
+ *
  * Case specs (also accepted by --case):
  *   S/<ver>/<suite>/<pmtu>/<kind>/<class>/<fates>/<spurious>
- *   R/<ver>/<suite>/<pmtu>/<kind>/<est>/<mode>/<rec>/<rec2>/<pos>
+ *   R/<ver>/<suite>/<pmtu>/<kind>/<est>/<mode>/<rec>/<rec2>/<pos>      (gap-replay: <gap>/<variant*2+direction>/0)
  */
 #include "mx.h"
 
@@ -760,7 +775,9 @@ int main(int argc, char **argv)
 
     static const int pmtus[] = { 1500, 600, 400 };   /* 256 cannot carry a 2048-bit RSA ClientKeyExchange / signature in one datagram */
     int T = vf_thorough;
-    vf_rng g; vf_rng_init(&g, vf_seed, 16);
+    /* vf_rng_init(seed) and vf_rng_init(seed+1) give the same splitmix stream shifted by one draw: hash the seed first */
+    uint64_t hs = vf_hash(&vf_seed, sizeof vf_seed) ^ (vf_seed << 32);
+    vf_rng g; vf_rng_init(&g, hs, 16);
     int ci = 0;
     /* --- PSK bulk: exhaustive drop patterns --- */
     static const struct { uint16_t suite; int ver; } psk[] = { { 0x008c, MX_DTLS10 }, { 0x008c, MX_DTLS12 }, { 0x00ae, MX_DTLS12 } };
